@@ -82,6 +82,142 @@ type treeJob struct {
 	Len   int
 	Cost  float64
 	Index int
+
+	// families added by the audit (AUDIT.md); the zero values give the original family
+	Family   string  // "", "variants", "scope", "filterkind", "guard", "long"
+	Guard    bool    // the alphabet also holds the wrong-method calls of the two handlers
+	Explicit [][]int // explicit histories instead of every sequence of length Len
+}
+
+// guardSyms are the wrong-method calls (symbols after GET /verify and POST /verify/reset).
+var guardSyms = []struct{ Method, Path, Allow string }{
+	{"POST", "/verify", "GET"},
+	{"GET", "/verify/reset", "POST"},
+	{"PUT", "/verify/reset", "POST"},
+}
+
+func (j *treeJob) nsyms() int {
+	k := len(j.Alpha) + 2
+	if j.Guard {
+		k += len(guardSyms)
+	}
+	return k
+}
+
+// sigPrefix keeps the signatures of the added families apart from the original ones (and from each other).
+func (j *treeJob) sigPrefix() string {
+	switch j.Family {
+	case "":
+		return ""
+	case "filterkind":
+		for _, f := range filtersOf(j.Tree) {
+			if f.Var != 0 {
+				return "filterkind:" + scen.FilterKindNames[f.Var] + ":"
+			}
+		}
+	}
+	return j.Family + ":"
+}
+
+// splitFamily splits a signature of an added family into the family prefix and the rest ("" for the original ones).
+func splitFamily(sig string) (fam, base string) {
+	for _, f := range []string{"variants:", "scope:", "guard:", "long:"} {
+		if strings.HasPrefix(sig, f) {
+			return f, strings.TrimPrefix(sig, f)
+		}
+	}
+	if strings.HasPrefix(sig, "filterkind:") {
+		rest := strings.TrimPrefix(sig, "filterkind:")
+		if i := strings.IndexByte(rest, ':'); i >= 0 {
+			return "filterkind:" + rest[:i+1], rest[i+1:]
+		}
+	}
+	return "", sig
+}
+
+func filtersOf(t *scen.Node) []*scen.Node {
+	var out []*scen.Node
+	if t.Kind >= scen.KFilterT {
+		out = append(out, t)
+	}
+	for _, k := range t.Kids {
+		out = append(out, filtersOf(k)...)
+	}
+	return out
+}
+
+func extLen(tier string) int {
+	if tier == "thorough" {
+		return 4
+	}
+	return 3
+}
+
+// extJobs lists the jobs of the added families.
+func extJobs(tier string) []treeJob {
+	var jobs []treeJob
+	L := extLen(tier)
+	pow := func(k, l int) float64 {
+		c := 1.0
+		for i := 0; i < l; i++ {
+			c *= float64(k)
+		}
+		return c
+	}
+	// every history of length l over the tree's alphabet, l being the largest length <= L whose number of
+	// histories stays under the per-tree cap (at least 2: traffic, reset, final query)
+	maxHist := 30000.0
+	if tier == "thorough" {
+		maxHist = 60000
+	}
+	addFam := func(fam string, trees []*scen.Node, l int, guard bool) {
+		for _, t := range trees {
+			j := treeJob{Tree: t, Alpha: scen.AlphabetX(t, fam == "variants"), Len: l, Family: fam, Guard: guard}
+			for j.Len > 2 && pow(j.nsyms(), j.Len) > maxHist {
+				j.Len--
+			}
+			j.Cost = pow(j.nsyms(), j.Len)
+			jobs = append(jobs, j)
+		}
+	}
+	addFam("variants", scen.VariantTrees(tier), L, false)
+	addFam("scope", scen.ScopeTrees(tier), L, false)
+	addFam("filterkind", scen.FilterKindTrees(tier), L, false)
+	addFam("guard", scen.GuardTrees(), L, true)
+	// long: runs of one plain message - N times, query, reset, N mod 3 times, (final query) - for every N up to a
+	// bound beyond the growth steps of a slice (1, 2, 4, 8, 16 ...; thorough: ... 128)
+	nmax := 20
+	if tier == "thorough" {
+		nmax = 132
+	}
+	for _, t := range scen.LongTrees() {
+		j := treeJob{Tree: t, Alpha: scen.Alphabet(t), Family: "long"}
+		q, r := len(j.Alpha), len(j.Alpha)+1
+		steps := 0
+		for mi, m := range j.Alpha {
+			if m.API {
+				continue
+			}
+			for n := 0; n <= nmax; n++ {
+				var seq []int
+				for i := 0; i < n; i++ {
+					seq = append(seq, mi)
+				}
+				seq = append(seq, q, r)
+				for i := 0; i < n%3; i++ {
+					seq = append(seq, mi)
+				}
+				j.Explicit = append(j.Explicit, seq)
+				steps += len(seq)
+				if len(seq) > j.Len {
+					j.Len = len(seq)
+				}
+			}
+		}
+		j.Cost = float64(steps) / 4
+		jobs = append(jobs, j)
+	}
+	return jobs
 }
 
 func seqBounds(tier string) (maxN int, lenFor func(n int) int) {
@@ -102,6 +238,12 @@ func seqJobs(tier string) []treeJob {
 				c *= float64(len(a) + 2)
 			}
 			jobs = append(jobs, treeJob{Tree: t, Alpha: a, Len: lenFor(n), Cost: c, Index: len(jobs)})
+		}
+	}
+	if os.Getenv("C13_SKIP_EXT") == "" {
+		for _, j := range extJobs(tier) {
+			j.Index = len(jobs)
+			jobs = append(jobs, j)
 		}
 	}
 	return jobs
@@ -138,8 +280,11 @@ func symName(j *treeJob, s int) string {
 		return j.Alpha[s].String()
 	case s == len(j.Alpha):
 		return "GET /verify"
+	case s == len(j.Alpha)+1:
+		return "POST /verify/reset"
 	}
-	return "POST /verify/reset"
+	g := guardSyms[s-len(j.Alpha)-2]
+	return g.Method + " " + g.Path
 }
 
 func histNames(j *treeJob, seq []int) []string {
@@ -169,7 +314,7 @@ func runHistory(out *shardOut, j *treeJob, js []byte, pool *scen.Pool, seq []int
 		return map[string]interface{}{"part": "seq", "tree": j.Tree.String(), "config": string(js), "history": histNames(j, seq[:n]), "symbols": append([]int(nil), seq[:n]...), "final_query": upto >= len(seq)}
 	}
 	if err != nil {
-		out.violate(rank, "configure:rejected", fmt.Sprintf("tree %s: configuration rejected or panicked: %v", j.Tree, err), nil)
+		out.violate(rank, j.sigPrefix()+"configure:rejected", fmt.Sprintf("tree %s: configuration rejected or panicked: %v", j.Tree, err), nil)
 		return 0
 	}
 	md := scen.NewModel(j.Tree)
@@ -179,7 +324,7 @@ func runHistory(out *shardOut, j *treeJob, js []byte, pool *scen.Pool, seq []int
 		if n > len(seq) {
 			n = len(seq)
 		}
-		out.violateSeq(rank+step, sig, func() (string, interface{}) { return desc(), replay(step) }, j, seq[:n])
+		out.violateSeq(rank+step, j.sigPrefix()+sig, func() (string, interface{}) { return desc(), replay(step) }, j, seq[:n])
 	}
 	query := func(step int) bool {
 		toks, raw, err := h.Query()
@@ -212,6 +357,7 @@ func runHistory(out *shardOut, j *treeJob, js []byte, pool *scen.Pool, seq []int
 		switch {
 		case s < len(j.Alpha):
 			m := j.Alpha[s]
+			pool.Tree = j.Tree
 			x, err := pool.Exchange(m, i+1, i)
 			if err == nil {
 				if err = h.Request(x); err == nil {
@@ -230,6 +376,39 @@ func runHistory(out *shardOut, j *treeJob, js []byte, pool *scen.Pool, seq []int
 			}
 			md.Traffic(m, i+1)
 		case s == len(j.Alpha):
+			if !query(i) {
+				return i
+			}
+		case s >= len(j.Alpha)+2:
+			// a call with the wrong method is neither a query nor a reset: 405 + Allow, and nothing changes
+			g := guardSyms[s-len(j.Alpha)-2]
+			before, _, _ := h.Query()
+			var code int
+			var allow string
+			var err error
+			if g.Path == "/verify" {
+				code, allow, _, err = h.QueryWith(g.Method)
+			} else {
+				code, allow, err = h.ResetWith(g.Method)
+			}
+			out.Counters["seq_wrong_method_calls"]++
+			if err != nil || code != 405 || allow != g.Allow {
+				sig := "wrong_method:status"
+				if err != nil {
+					sig = "panic:wrong_method"
+				}
+				violate(i, sig, func() string {
+					return fmt.Sprintf("tree %s history %v: %s %s returned %d (Allow %q) %v, want 405 (Allow %q)", j.Tree, histNames(j, seq[:i+1]), g.Method, g.Path, code, allow, err, g.Allow)
+				})
+				return i
+			}
+			after, _, err := h.Query()
+			if err != nil || strings.Join(after, ",") != strings.Join(before, ",") {
+				violate(i, "wrong_method:state_changed", func() string {
+					return fmt.Sprintf("tree %s history %v: GET /verify answered %v before and %v %v after %s %s (405)", j.Tree, histNames(j, seq[:i+1]), before, after, err, g.Method, g.Path)
+				})
+				return i
+			}
 			if !query(i) {
 				return i
 			}
@@ -266,15 +445,20 @@ func seqPart(out *shardOut, jobs []treeJob, deadline time.Time) {
 	pool := &scen.Pool{}
 	for ji := range jobs {
 		j := &jobs[ji]
-		k := len(j.Alpha) + 2
+		k := j.nsyms()
 		L := j.Len
+		cpu0 := cpuMillis()
 		js := []byte(j.Tree.JSON())
 		states := map[uint64]bool{}
 		initial := strings.Join(scen.NewModel(j.Tree).Expected(), ",")
 		seq := make([]int, L)
 		var n int64
 		first := true
-		for {
+		for ei, eseq := range j.Explicit {
+			runHistory(out, j, js, pool, eseq, ei == 0, states, initial)
+			n++
+		}
+		for j.Explicit == nil {
 			fail := runHistory(out, j, js, pool, seq, first, states, initial)
 			first = false
 			n++
@@ -306,6 +490,14 @@ func seqPart(out *shardOut, jobs []treeJob, deadline time.Time) {
 		out.Counters["seq_histories"] += n
 		out.Counters["seq_trees"]++
 		out.Counters["seq_states"] += int64(len(states))
+		if j.Family != "" {
+			out.Counters["cpu_ms_fam_"+j.Family] += cpuMillis() - cpu0
+			out.Counters["fam_"+j.Family+"_trees"]++
+			out.Counters["fam_"+j.Family+"_histories"] += n
+			if j.Explicit == nil {
+				out.Counters[fmt.Sprintf("fam_%s_trees_len%d", j.Family, j.Len)]++
+			}
+		}
 		if len(out.Samples) < 3 && j.Tree.Size() >= 3 && ji%7 == 0 {
 			out.Samples = append(out.Samples, map[string]interface{}{"tree": j.Tree.String(), "config": string(js), "alphabet": len(j.Alpha) + 2, "length": L, "histories": n, "distinct_model_states": len(states)})
 		}
@@ -968,6 +1160,10 @@ func main() {
 		replay(os.Getenv("VERIF_REPLAY"))
 		return
 	}
+	if os.Getenv("C13_XCHECK") != "" {
+		// cross-check: the original families judged by the concrete model of the added families
+		scen.ForceConcrete = true
+	}
 	jobs := seqJobs(tier)
 	scs := scen.ConcScenarios(tier)
 	if i, n := lib.ShardEnv(); n > 0 {
@@ -1049,9 +1245,36 @@ func main() {
 		}
 	}
 	sort.SliceStable(all, func(a, b int) bool { return all[a].Rank < all[b].Rank })
+	// A defect of the shared code (filter.go, fifo, MultiError ...) shows in the original family and again in every
+	// added family. The copies "<family>:X" are folded into the original signature X when X itself fired in this
+	// run and is not a listed known finding (then X is reported anyway, and a listed X must not hide anything).
+	legacyFired := map[string]bool{}
 	for _, v := range all {
+		if fam, _ := splitFamily(v.Sig); fam == "" {
+			legacyFired[v.Sig] = true
+		}
+	}
+	findings := lib.LoadFindings()
+	listed := func(sig string) bool {
+		for _, f := range findings {
+			if f.Kind != "finding" || f.Property != "C13" {
+				continue
+			}
+			if f.Sig == sig || (strings.HasSuffix(f.Sig, "*") && strings.HasPrefix(sig, strings.TrimSuffix(f.Sig, "*"))) {
+				return true
+			}
+		}
+		return false
+	}
+	folded := map[string]int{}
+	for _, v := range all {
+		if fam, base := splitFamily(v.Sig); fam != "" && legacyFired[base] && !listed(base) {
+			folded[v.Sig]++
+			continue
+		}
 		rep.Violate(v.Sig, v.Desc, v.Replay)
 	}
+	rep.Coverage["signatures_folded_into_original"] = folded
 	rr := <-raceCh
 	raceSigs := map[string]int{}
 	if rr.Err != "" {
@@ -1069,6 +1292,10 @@ func main() {
 			map[string]interface{}{"part": "race", "scenario": r.Scenario, "report": r.Text})
 	}
 	maxN, lenFor := seqBounds(tier)
+	var extTrees int64
+	for _, f := range []string{"variants", "scope", "filterkind", "guard", "long"} {
+		extTrees += rep.Counter("fam_" + f + "_trees")
+	}
 	rep.Coverage["states"] = rep.Counter("seq_states") + rep.Counter("conc_distinct_histories")
 	rep.Coverage["transitions"] = rep.Counter("seq_steps") + rep.Counter("conc_points")
 	rep.Coverage["traces_validated_against_impl"] = rep.Counter("seq_histories") + rep.Counter("conc_executions")
@@ -1081,11 +1308,19 @@ func main() {
 	rep.Coverage["conc_scenarios_detail"] = concSamples
 	rep.Coverage["race_pass"] = map[string]interface{}{"scenarios": rr.Scenarios, "iterations": rr.Iterations, "reports": len(rr.Reports), "signatures": raceSigs, "seconds": rr.Seconds, "error": rr.Err}
 	rep.Coverage["exhaustive"] = rep.Incomplete == ""
-	rep.Coverage["rule"] = "sequential: every numbered tree with <= n nodes x every sequence of exactly L symbols over the tree's alphabet (all routing x met/unmet decision paths as plain messages; API-marked messages per routing path that reaches a verifier, with all expectations unmet, and also all met when a pingback verifier is present; GET /verify; POST /verify/reset), checked step by step so every shorter history is covered as a prefix, plus one final query; extensions of a failing prefix are skipped. A history is non-trivial when some query in it (explicit or final) has an expected answer different from the fresh tree's. concurrent: every scenario in conc_scenarios_detail, each either over all interleavings of the rewritten lock operations (preemption_bound 0) or over all schedules up to the stated preemption bound."
-	rep.Coverage["bounds"] = fmt.Sprintf("sequential: all %d trees with <= %d nodes x all histories of length <= %d over the per-tree alphabet; concurrent: %d scenarios explored over all interleavings of their lock operations (pairs of threads and small triples: traffic/query/reset) + %d scenarios (2-3 traffic threads x 1-2 exchanges, query thread, optional reset thread) explored over all schedules with at most 2 (quick) / 3 (thorough) preemptions; race pass: %d scenarios, %d free-running runs under -race", len(jobs), maxN, lenFor(maxN), rep.Counter("conc_scenarios_all_interleavings"), rep.Counter("conc_scenarios_preemption_bounded"), rr.Scenarios, rr.Iterations)
+	fams := map[string]interface{}{}
+	for _, f := range []string{"variants", "scope", "filterkind", "guard", "long"} {
+		fams[f] = map[string]int64{"trees": rep.Counter("fam_" + f + "_trees"), "histories": rep.Counter("fam_" + f + "_histories"), "cpu_ms": rep.Counter("cpu_ms_fam_" + f),
+			"trees_with_all_histories_of_length_2": rep.Counter("fam_" + f + "_trees_len2"), "trees_with_all_histories_of_length_3": rep.Counter("fam_" + f + "_trees_len3"), "trees_with_all_histories_of_length_4": rep.Counter("fam_" + f + "_trees_len4")}
+	}
+	rep.Coverage["added_families"] = fams
+	rep.Coverage["wrong_method_calls"] = rep.Counter("seq_wrong_method_calls")
+	rep.Coverage["rule"] = "sequential: every numbered tree with <= n nodes x every sequence of exactly L symbols over the tree's alphabet (all routing x met/unmet decision paths as plain messages; API-marked messages per routing path that reaches a verifier, with all expectations unmet, and also all met when a pingback verifier is present; GET /verify; POST /verify/reset), checked step by step so every shorter history is covered as a prefix, plus one final query; extensions of a failing prefix are skipped. A history is non-trivial when some query in it (explicit or final) has an expected answer different from the fresh tree's. Added families (same enumeration, judged by the concrete reference model of scen/ext.go; counts in added_families): variants = every verifier kind in every listed parameterisation (header: value / presence only / lower-case name; query: value / presence only; url: host / scheme+host+path; pingback: path / scheme+host+path) alone, in a group and in either branch of a filter x the original alphabet plus every shape (wrong value, two values of which the second is wanted, wanted on one side only, empty value, other scheme, other path) x {rest unmet, rest met} x {plain, API}; scope = every listed tree with <= 3 nodes in which some node carries a scope (absent, request, response, both, empty list; every combination the kinds accept) and aggregating groups; filterkind = header / cookie / url-regex / url / method filters with verifiers in the true, else and both branches, the alphabet extended by responses that take the other branch than their request (header and cookie filters decide that from the response); guard = the alphabet extended by POST /verify, GET and PUT /verify/reset (405 + Allow, nothing changes); long = for every plain message m and every N up to the bound: m^N, query, reset, m^(N mod 3), query. concurrent: every scenario in conc_scenarios_detail, each either over all interleavings of the rewritten lock operations (preemption_bound 0) or over all schedules up to the stated preemption bound."
+	rep.Coverage["bounds"] = fmt.Sprintf("sequential: all %d trees with <= %d nodes x all histories of length <= %d over the per-tree alphabet; added families: %d trees, all histories of the largest length <= %d that stays under the per-tree cap (see added_families; long: N <= %d); concurrent: %d scenarios explored over all interleavings of their lock operations (pairs of threads and small triples: traffic/query/reset) + %d scenarios (2-3 traffic threads x 1-2 exchanges, query thread, optional reset thread) explored over all schedules with at most 2 (quick) / 3 (thorough) preemptions; race pass: %d scenarios, %d free-running runs under -race", len(jobs)-int(extTrees), maxN, lenFor(maxN), extTrees, extLen(tier), map[bool]int{false: 20, true: 132}[tier == "thorough"], rep.Counter("conc_scenarios_all_interleavings"), rep.Counter("conc_scenarios_preemption_bounded"), rr.Scenarios, rr.Iterations)
 	rep.Assumptions = []string{
 		"traffic is applied as the proxy applies it (martian context linked to the request, ModifyRequest then ModifyResponse on the configurable martianhttp.Modifier); no sockets are involved; API requests are marked through the context exactly like api.Forwarder does",
-		"one parameterisation per verifier kind (status 200, header X-Vh: ok, method GET, url host, query qv=ok, failure message per node, pingback path); the header expectation is toggled on request and response together; filters are querystring.Filter (all filter kinds share filter.Filter's verification code)",
+		"original families: one parameterisation per verifier kind (status 200, header X-Vh: ok, method GET, url host, query qv=ok, failure message per node, pingback path), the header expectation toggled on request and response together, filters are querystring.Filter; the added families vary the parameterisation, the way an expectation is missed, the scope option and the filter kind on small trees (<= 3 nodes), not in combination with each other",
+		"added families: a verifier or container whose scope excludes a side takes no part on that side (a scoped-out pingback verifier yields no 'never occurred' error); a url verifier records one error per request however many parts differ; a header present with the wanted value among several values, or present at all for a blank expectation, meets the expectation; a wrong-method call to either handler is neither a query nor a reset",
 		"error messages are attributed to verifier kinds by their documented formats and to messages by a unique id= query parameter; order of errors in the answer is not constrained",
 		"sequential histories recycle request objects (hence martian contexts) between histories; every history runs on a freshly parsed configuration (the first history of each tree through the /configure handler, the others through parse.FromJSON + SetRequestModifier/SetResponseModifier)",
 		"schedule exploration interleaves at lock operations only (gosim) and has no partial-order reduction: the 3-4 thread scenarios are complete only up to a preemption bound (every added lock or API-exemption check in martian multiplies the interleavings, the scenario sizes are chosen for the repaired tree); unsynchronised accesses are the business of the auxiliary -race pass, which is a sampling of real schedules, not exhaustive",
